@@ -332,9 +332,42 @@ func (ex *Exec) evalIdent(st *State, name string, env *Env, cl *Clause) Value {
 		// source-level local of the function under verification
 		var found Value
 		n := 0
+		// several live declarations of the same name (the hidden index variables of two range loops, a name
+		// re-declared in a later block): inside a loop specification the one the loop itself assigns is meant
+		var inLoop map[*ssa.Alloc]bool
+		if env.lc != nil {
+			cnt := 0
+			for _, b := range env.fr.fn.Blocks {
+				for _, in := range b.Instrs {
+					if a, ok := in.(*ssa.Alloc); ok && a.Comment == name {
+						if _, live := env.fr.regs[a]; live {
+							cnt++
+						}
+					}
+				}
+			}
+			if cnt > 1 {
+				inLoop = map[*ssa.Alloc]bool{}
+				for b := range env.lc.info.body {
+					for _, in := range b.Instrs {
+						if s, ok := in.(*ssa.Store); ok {
+							if a, ok := s.Addr.(*ssa.Alloc); ok && a.Comment == name {
+								inLoop[a] = true
+							}
+						}
+					}
+				}
+				if len(inLoop) != 1 {
+					inLoop = nil
+				}
+			}
+		}
 		for _, b := range env.fr.fn.Blocks {
 			for _, in := range b.Instrs {
 				if a, ok := in.(*ssa.Alloc); ok && a.Comment == name {
+					if inLoop != nil && !inLoop[a] {
+						continue
+					}
 					if pv, ok := env.fr.regs[a]; ok {
 						p := pv.(*VPtr)
 						if p.Obj != nil {
@@ -677,6 +710,26 @@ func (ex *Exec) evalCall(st *State, c *ECall, env *Env, cl *Clause) Value {
 			return g.Vals[i]
 		}
 		return nil
+	case "newvar":
+		// newvar(p): p is the address of a variable that is created anew every time control reaches the point of
+		// evaluation - a local variable or composite literal of the current function whose allocation site lies
+		// inside every loop that contains that point. (A sufficient, syntactic condition for "this pointer was
+		// never handed out before"; a variable declared outside the loop and reused in it does not satisfy it.)
+		v := ex.evalIn(st, c.Args[0], env, cl)
+		p, ok := v.(*VPtr)
+		if !ok || p.Obj == nil || p.Obj.Site == nil || len(p.Path) != 0 || len(st.frames) == 0 {
+			return False
+		}
+		fr := st.top()
+		if p.Obj.Site.Parent() != fr.fn {
+			return False
+		}
+		for _, li := range loopsOf(fr.fn) {
+			if li.body[fr.block] && !li.body[p.Obj.Site.Block()] {
+				return False
+			}
+		}
+		return True
 	case "allocated":
 		// allocated(s): the slice/map refers to memory that has been allocated by now (its reference is below
 		// the allocation counter at the point of evaluation); monotone over time
